@@ -27,6 +27,8 @@ def eng(engine, profile, q, t, **kw):
 
 
 PLAN = {
+    "C01": {"runs": [eng("fo", "c01", 250, 5000), eng("fo", "c02", 120, 2000)]},
+    "C04": {"runs": [eng("fo", "c04", 250, 5000), eng("fo", "c01", 120, 2000)]},
     "C13": {"runs": [eng("xfer", "c13", 100, 1500)],
             "trusted_extra": ["encoding/gob is modelled as the identity on {K,V,E,C} records decoded into fresh variables"]},
     "C14": {"runs": [eng("xfer", "c14", 60, 600)],
